@@ -37,15 +37,16 @@ impl<C: Config, Q: Query> Snapshot<C, Q> {
         }
 
         // check if the query was called with repairing firewall and
-        // has pending backward projection to do
+        // has pending backward projection to do. The pending mark may stem
+        // from an earlier timestamp: the firewall was recomputed on behalf of
+        // a caller that does not run the backward projection (the user or an
+        // executor asked for it directly) and nothing repaired it again
+        // before the next input session.
         if matches!(
             caller.kind(),
             CallerKind::RepairFirewall
                 | CallerKind::BackwardProjectionPropagation
-        ) && self
-            .pending_backward_projection()
-            .await
-            .is_some_and(|x| x.0 == caller.timestamp())
+        ) && self.pending_backward_projection().await.is_some()
         {
             return FastPathResult::ToSlowPath(SlowPath::BaackwardProjection);
         }
